@@ -203,7 +203,12 @@ func genMut(t *rapid.T) Case {
 // ---- typed queries
 
 func genCy(t *rapid.T) Case {
-	q := cy.Generate(t, cy.DefaultOptions())
+	o := cy.DefaultOptions()
+	if rapid.IntRange(0, 2).Draw(t, "special-shapes") == 0 {
+		// the shapes the optimiser's lowerings and fast paths look for: they have translators of their own
+		o.Bias = "lowerings"
+	}
+	q := cy.Generate(t, o)
 	c := Case{Src: "cy", Text: q.Text}
 	names := make([]string, 0, len(q.Params))
 	for n := range q.Params {
